@@ -22,6 +22,17 @@ namespace HD
 /-- the event symbol the statistics code waits for (regenerated from game_statistics.go) -/
 theorem C14_stat_event_fact : statEvent = "Started" := by decide
 
+/-- `PlayerFold` reads the round it records *before* it applies the fold (regenerated from table_engine.go) — the model's
+`fold` stamps the round of the state the fold was validated on.  D28 (fixed): read after the action event had been
+published, it raced with the hand's own updater, which moves a closed round on at once, and named the following round. -/
+theorem C14_fold_round_fact : Facts.foldRoundRead = "before-the-fold|te.game.GetGameState().Status.Round" := by decide
+
+/-- `PlayerBet` / `PlayerAllin` decide "was this a raise" on the state the action itself returned (regenerated from
+table_engine.go) — the model's `bump1` is given that state.  D29 (fixed): asked of the live hand state after the action
+event had been published, the answer depended on whether the hand had already moved on (an action that closes the round). -/
+theorem C14_raiser_read_fact : Facts.raiserReads =
+    ["PlayerBet: gs.Status.CurrentRaiser == gamePlayerIdx", "PlayerAllin: gs.Status.CurrentRaiser == gamePlayerIdx"] := by decide
+
 /-- **C14 — counters = accepted wager actions / calls / checks, raises ≤ actions, fold flag ⇔ a fold was accepted**,
 for every player, after every history that starts with empty statistics. -/
 theorem C14_counters (s : State) (evs : List Ev) (h0 : Inv14 s) :
